@@ -162,7 +162,7 @@ def main():
         continue
       v = dict(v)
       n = shrunk_sigs.get(v['signature'], 0)
-      if n < 1 and not args.no_shrink:
+      if n < 1 and not args.no_shrink and not os.environ.get('VSIM_DETECT_ONLY'):
         shrunk_sigs[v['signature']] = n + 1
         try:
           v['replay'] = shrink_and_save(
